@@ -198,8 +198,11 @@ def _obj_isclose(self, other, *, rtol: float, atol: float, equal_nan: bool) -> b
         and np.isclose(np.abs(self_pivot - other_pivot), 0, **kwargs)
     )
 
-    if self.error is not None and other.error is not None:
-        condition = condition and np.allclose(self.error, other.error, **kwargs)
+    # a single-track record without an error matrix has no `error` field at all
+    self_error = getattr(self, "error", None)
+    other_error = getattr(other, "error", None)
+    if self_error is not None and other_error is not None:
+        condition = condition and np.allclose(self_error, other_error, **kwargs)
 
     return bool(condition)
 
